@@ -626,6 +626,37 @@ pub fn run_case2(prop: &str, op: u32, toks: &[Tok]) -> Outcome {
         30 => op_filt_hand(toks, prop),
         27 => op_filtercfg(toks, prop),
         28 => op_stable(toks, prop),
+        39 => {
+            // INPLACE: the inputs are copied, one after the other, into the SAME buffer and parsed there
+            let mut r = R::new(toks);
+            let sh = r.bool();
+            let n = r.n() as usize;
+            let items: Vec<(usize, Vec<u8>)> = (0..n).map(|_| (r.n() as usize, r.b())).collect();
+            let cap = items.iter().map(|x| x.1.len()).max().unwrap_or(0) + 1;
+            let mut buf: Vec<u8> = Vec::with_capacity(cap);
+            let mut w = W::new();
+            let mut oracle = vec![];
+            for (k, (missing, it)) in items.iter().enumerate() {
+                buf.clear();
+                buf.extend_from_slice(it);
+                let res = parse_owned(&buf[..], None, sh);
+                if *missing > 0 && (prop == "C05" || prop == "C04") {
+                    // the generator knows this input to be a proper prefix, `missing - 1` bytes short
+                    match &res {
+                        Some(Err(DltParseError::IncompleteParse { needed })) => {
+                            if let Some(nd) = needed {
+                                if nd.get() > *missing - 1 {
+                                    oracle.push(("hint_le_missing".into(), format!("input {} of the sequence: needed {} > missing {}", k, nd, *missing - 1)));
+                                }
+                            }
+                        }
+                        _ => oracle.push(("prefix_incomplete".into(), format!("input {} of the sequence is a proper prefix of a message but the answer is not incomplete", k))),
+                    }
+                }
+                w_presult(&mut w, &res);
+            }
+            Outcome { result: w.0, oracle }
+        }
         38 => {
             // NEW_THEN_STABLE: build a message from the configuration, drop it unwritten, then op 28 on the bytes
             let mut r = R::new(toks);
